@@ -97,6 +97,28 @@ def source_digests(T=None):
     return out
 
 
+def _entity_table(T, node):
+    """the table handed to saxutils.unescape: a dict literal, or a constant the function names -- `self.X` / `cls.X` /
+    `String.X` / `type(self).X` (read from the live class String) or a module-level name of Types.py (read from the live
+    module).  Anything else is not understood (fail closed).  The value is read from the running interpreter, so the tie is
+    to what the code uses now; the entries are type-checked by the caller."""
+    if isinstance(node, ast.Dict):
+        return ast.literal_eval(node)
+    val = None
+    if isinstance(node, ast.Attribute) and isinstance(node.ctx, ast.Load):
+        base = node.value
+        is_self = isinstance(base, ast.Name) and base.id in ("self", "cls", "String")
+        is_type_self = (isinstance(base, ast.Call) and isinstance(base.func, ast.Name) and base.func.id == "type"
+                        and len(base.args) == 1 and isinstance(base.args[0], ast.Name) and base.args[0].id == "self")
+        if (is_self or is_type_self) and node.attr in vars(T.String):
+            val = vars(T.String)[node.attr]
+    elif isinstance(node, ast.Name) and node.id in vars(T):
+        val = vars(T)[node.id]
+    if not isinstance(val, dict):
+        raise ValueError("String._convert_str: entity table argument not understood: %s" % ast.dump(node))
+    return dict(val)
+
+
 def string_entities(T):
     """the literal dict passed as 2nd argument of saxutils.unescape in String._convert_str"""
     fn = T.String.__dict__["_convert_str"]
@@ -107,7 +129,7 @@ def string_entities(T):
             if len(n.args) == 1 and not n.keywords:
                 found.append({})
             elif len(n.args) == 2 and not n.keywords:
-                found.append(ast.literal_eval(n.args[1]))
+                found.append(_entity_table(T, n.args[1]))
             else:
                 raise ValueError("String._convert_str: unescape call not understood")
     if len(found) != 1:
